@@ -491,3 +491,26 @@ mod tests {
         let _: valve::GatheringSettings = settings.into();
     }
 }
+
+/// Verification unit port (compiled only with `--cfg gamedig_verif`).
+#[cfg(gamedig_verif)]
+pub mod verif_unit {
+    use super::TimeoutSettings;
+    use std::time::Duration;
+
+    /// What the derived `Deserialize` / `clap::Args` implementations can
+    /// produce: any field values, without going through `TimeoutSettings::new`.
+    pub fn timeout_settings_raw(
+        read: Option<Duration>,
+        write: Option<Duration>,
+        connect: Option<Duration>,
+        retries: usize,
+    ) -> TimeoutSettings {
+        TimeoutSettings {
+            connect,
+            read,
+            write,
+            retries,
+        }
+    }
+}
